@@ -1130,11 +1130,12 @@ func zipInnerSubscription[T any](subscriberCtx context.Context, obs Observable[T
 					if len(*values) == 0 {
 						mu.Unlock()
 						destination.CompleteWithContext(ctx)
+						subscriptions.Unsubscribe()
 					} else {
+						// values of this source are still waiting to be paired: the other
+						// sources must stay subscribed until the queue is drained
 						mu.Unlock()
 					}
-
-					subscriptions.Unsubscribe()
 				},
 			),
 		),
@@ -1184,7 +1185,11 @@ func ZipWith1[A, B any](obsB Observable[B]) func(Observable[A]) Observable[lo.Tu
 
 					if (completedA && len(valueA) == 0) ||
 						(completedB && len(valueB) == 0) {
+						// unlock before completing: the teardown takes the same lock
+						mu.Unlock()
 						destination.CompleteWithContext(ctx) // @TODO: Send the last context ?
+
+						return
 					}
 				}
 
@@ -1251,7 +1256,11 @@ func ZipWith2[A, B, C any](obsB Observable[B], obsC Observable[C]) func(Observab
 					if (completedA && len(valueA) == 0) ||
 						(completedB && len(valueB) == 0) ||
 						(completedC && len(valueC) == 0) {
+						// unlock before completing: the teardown takes the same lock
+						mu.Unlock()
 						destination.CompleteWithContext(ctx) // @TODO: Send the last context ?
+
+						return
 					}
 				}
 
@@ -1325,7 +1334,11 @@ func ZipWith3[A, B, C, D any](obsB Observable[B], obsC Observable[C], obsD Obser
 						(completedB && len(valueB) == 0) ||
 						(completedC && len(valueC) == 0) ||
 						(completedD && len(valueD) == 0) {
+						// unlock before completing: the teardown takes the same lock
+						mu.Unlock()
 						destination.CompleteWithContext(ctx) // @TODO: Send the last context ?
+
+						return
 					}
 				}
 
@@ -1407,7 +1420,11 @@ func ZipWith4[A, B, C, D, E any](obsB Observable[B], obsC Observable[C], obsD Ob
 						(completedC && len(valueC) == 0) ||
 						(completedD && len(valueD) == 0) ||
 						(completedE && len(valueE) == 0) {
+						// unlock before completing: the teardown takes the same lock
+						mu.Unlock()
 						destination.CompleteWithContext(ctx) // @TODO: Send the last context ?
+
+						return
 					}
 				}
 
@@ -1498,7 +1515,11 @@ func ZipWith5[A, B, C, D, E, F any](obsB Observable[B], obsC Observable[C], obsD
 						(completedD && len(valueD) == 0) ||
 						(completedE && len(valueE) == 0) ||
 						(completedF && len(valueF) == 0) {
+						// unlock before completing: the teardown takes the same lock
+						mu.Unlock()
 						destination.CompleteWithContext(ctx) // @TODO: Send the last context ?
+
+						return
 					}
 				}
 
@@ -1571,8 +1592,11 @@ func zipAllInnerSubscriptions[T any](outerCtx context.Context, sources []Observa
 
 			for i := range sources {
 				if completed[i] && len(values[i]) == 0 {
+					// unlock before completing: the teardown takes the same lock
+					mu.Unlock()
 					destination.CompleteWithContext(ctx) // @TODO: Send the last context ?
-					break
+
+					return
 				}
 			}
 		}
